@@ -1,0 +1,66 @@
+//go:build verif
+
+// Contracts for package specs, read by the gocv verification-condition
+// generator in /verif. This file contains comments only: it adds no code
+// to any build. Syntax: see /verif/DESIGN.md section 2.2.
+
+package specs
+
+// ---------------------------------------------------------------- version.go (C06)
+// The feature table of the property statement, with existential quantifiers over the
+// device index and the list position: placement- and order-independent by form.
+
+//@ pred MountTyped(e *ContainerEdits) = exists(j, 0 <= j && j < len(e.Mounts), e.Mounts[j] != nil && e.Mounts[j].Type != "")
+//@ pred HostPathUsed(e *ContainerEdits) = exists(j, 0 <= j && j < len(e.DeviceNodes), e.DeviceNodes[j] != nil && e.DeviceNodes[j].HostPath != "")
+//@ pred RdtOrGids(e *ContainerEdits) = e.IntelRdt != nil || len(e.AdditionalGIDs) > 0
+//@ pred DigitName(s string) = len(s) > 0 && '0' <= s[0] && s[0] <= '9'
+//@ pred DottedClass(kind string) = exists(i, 0 <= i && i < len(kind), kind[i] == '/' && noSlashBefore(kind, i) &&
+//@        exists(j, i < j && j < len(kind), kind[j] == '.'))
+//@ pred noSlashBefore(s string, i int) = forall(t, 0 <= t && t < i, s[t] != '/')
+
+//@ pred F040(spec *Spec) = MountTyped(&spec.ContainerEdits) ||
+//@        exists(k, 0 <= k && k < len(spec.Devices), MountTyped(&spec.Devices[k].ContainerEdits))
+//@ pred F050(spec *Spec) = HostPathUsed(&spec.ContainerEdits) ||
+//@        exists(k, 0 <= k && k < len(spec.Devices), HostPathUsed(&spec.Devices[k].ContainerEdits) || DigitName(spec.Devices[k].Name))
+//@ pred F060(spec *Spec) = exists(a, string, true, has(spec.Annotations, a)) ||
+//@        exists(k, 0 <= k && k < len(spec.Devices), exists(a, string, true, has(spec.Devices[k].Annotations, a))) ||
+//@        DottedClass(spec.Kind)
+//@ pred F070(spec *Spec) = RdtOrGids(&spec.ContainerEdits) ||
+//@        exists(k, 0 <= k && k < len(spec.Devices), RdtOrGids(&spec.Devices[k].ContainerEdits))
+
+//@ func requiresV100(spec *Spec) (r bool)
+//@   pure
+//@   ensures[C06] r == false
+//@ func requiresV080(spec *Spec) (r bool)
+//@   pure
+//@   ensures[C06] r == false
+
+//@ func requiresV070(spec *Spec) (r bool)
+//@   pure
+//@   requires spec != nil
+//@   ensures[C06] r == F070(spec)
+//@   loop 1 invariant forall(k, 0 <= k && k < #i, !RdtOrGids(&spec.Devices[k].ContainerEdits))
+
+//@ func requiresV060(spec *Spec) (r bool)
+//@   pure
+//@   requires spec != nil
+//@   ensures[C06] r == F060(spec)
+//@   loop 1 invariant forall(k, 0 <= k && k < #i, forall(a, string, true, !has(spec.Devices[k].Annotations, a)))
+
+//@ func requiresV050(spec *Spec) (r bool)
+//@   pure
+//@   requires spec != nil
+//@   ensures[C06] r == F050(spec)
+//@   loop 1 invariant len(edits) == #i && (base(edits) == 0 || fresh(edits))
+//@   loop 1 invariant forall(k, 0 <= k && k < #i, edits[k] == &spec.Devices[k].ContainerEdits && !DigitName(spec.Devices[k].Name))
+//@   loop 2 invariant forall(k, 0 <= k && k < #i, !HostPathUsed(#slice[k]))
+//@   loop 3 invariant forall(j, 0 <= j && j < #i, #slice[j] == nil || #slice[j].HostPath == "")
+
+//@ func requiresV040(spec *Spec) (r bool)
+//@   pure
+//@   requires spec != nil
+//@   ensures[C06] r == F040(spec)
+//@   loop 1 invariant len(edits) == #i && (base(edits) == 0 || fresh(edits))
+//@   loop 1 invariant forall(k, 0 <= k && k < #i, edits[k] == &spec.Devices[k].ContainerEdits)
+//@   loop 2 invariant forall(k, 0 <= k && k < #i, !MountTyped(#slice[k]))
+//@   loop 3 invariant forall(j, 0 <= j && j < #i, #slice[j] == nil || #slice[j].Type == "")
